@@ -822,7 +822,8 @@ func (s *IStore) DeletePARSession(ctx context.Context, uri string) error {
 	}
 	err := s.exec(c, func(m *storage.MemoryStore) error {
 		if s.Mode.RowCount {
-			if _, ok := m.PARSessions[uri]; !ok {
+			// asked through the store's own interface (how it keys its table is its business)
+			if _, err := m.GetPARSession(ctx, uri); errors.Is(err, fosite.ErrNotFound) {
 				return fosite.ErrNotFound // DELETE affected zero rows
 			}
 		}
